@@ -46,6 +46,7 @@ RE_DATETIME = re.compile(
     r'^(?P<year>[0-9]{4,})-(?P<month>[0-9]{2})-(?P<day>[0-9]{2})T(?P<hour>[0-9]{2}):(?P<minutes>[0-9]{2})$'
 )
 RE_WILD_STRIP = re.compile(r'(?:(?:-\*-)(?:\*(?:-|$))*|-\*$)')
+RE_WILD_TAIL = re.compile(r'(?:-\*)+$')
 
 MONTHS_30 = (4, 6, 9, 11)  # April, June, September, and November
 FEB = 2
@@ -654,7 +655,7 @@ class CSSMatch(_DocumentNav):
         """Filter the language tags."""
 
         match = True
-        lang_range = RE_WILD_STRIP.sub('-', lang_range).lower()
+        lang_range = RE_WILD_STRIP.sub('-', RE_WILD_TAIL.sub('', lang_range)).lower()
         ranges = lang_range.split('-')
         subtags = lang_tag.lower().split('-')
         length = len(ranges)
